@@ -185,3 +185,25 @@ Qed.
 
 Lemma case_variant_lc a : case_variant a (map lc a).
 Proof. induction a as [|c r IH]; constructor; [apply case_eq_lc|exact IH]. Qed.
+
+(** C09: [C09_macro_free_error_order] *)
+Lemma mf_C09_macro_free_error_order : forall (msep : bool) (src : list char),
+  macro_free (body_of src) = true ->
+  let errs := lr_errors (lex (mkCfg false msep) src) in
+  let '(bb, text) := match src with c :: r => if c =? 65279 then (utf8_len c, r) else (0, src) | [] => (0, src) end in
+  chain bb (bb + blen text) (map e_byte errs) /\ Forall (fun e => In (e_kind e) USER_ERRS) errs.
+Proof.
+  intros msep src H. pose proof (lex_is_reflex_macro_free msep src H) as G. cbv zeta in G |- *.
+  pose proof (reflex_errors_ordered src) as Ho. pose proof (reflex_errs_user src) as Hu.
+  destruct (match src with c :: r => if c =? 65279 then (utf8_len c, r) else (0, src) | [] => (0, src) end) as [bb text].
+  destruct (reflex src) as [[T E] lit]. cbn [fst snd] in Hu. destruct G as (_ & _ & _ & G4 & _).
+  assert (Kb : map e_byte (lr_errors (lex (mkCfg false msep) src)) = map re_byte E).
+  { pose proof (f_equal (map snd) G4) as K. rewrite !map_map in K. exact K. }
+  assert (Kk : map e_kind (lr_errors (lex (mkCfg false msep) src)) = map re_kind E).
+  { pose proof (f_equal (map fst) G4) as K. rewrite !map_map in K. exact K. }
+  split; [rewrite Kb; exact Ho|].
+  revert Kk. generalize (lr_errors (lex (mkCfg false msep) src)) as L. clear -Hu.
+  induction Hu as [|e es He _ IH]; intros [|x L] K; cbn [map] in K; try discriminate; constructor.
+  - injection K as K1 _. rewrite K1. exact He.
+  - injection K as _ K2. apply IH. exact K2.
+Qed.
